@@ -468,10 +468,10 @@ theorem handleLaunch_GI (cp : CP) (p : List Nat) (h : GI cp p) : GI (handleLaunc
         by_cases hj : j = i
         · subst hj
           have : j < (CP.mk cp.cfg cp.disps cp.pool rest cp.cuIn cp.cuRoom cp.drvRoom cp.nextReq cp.nextKey
-              cp.fault cp.out cp.log).disps.length := hi
+              cp.fault cp.out cp.log cp.done).disps.length := hi
           simp [this, startDispatching]
         · have : ¬ (i = j ∧ i < (CP.mk cp.cfg cp.disps cp.pool rest cp.cuIn cp.cuRoom cp.drvRoom cp.nextReq
-              cp.nextKey cp.fault cp.out cp.log).disps.length) := fun hc => hj hc.1.symm
+              cp.nextKey cp.fault cp.out cp.log cp.done).disps.length) := fun hc => hj hc.1.symm
           simp only [this, if_false, hj]; rfl
       · intro j
         show ((CP.setDisp _ i _).disp j).nd = _
@@ -479,10 +479,10 @@ theorem handleLaunch_GI (cp : CP) (p : List Nat) (h : GI cp p) : GI (handleLaunc
         by_cases hj : j = i
         · subst hj
           have : j < (CP.mk cp.cfg cp.disps cp.pool rest cp.cuIn cp.cuRoom cp.drvRoom cp.nextReq cp.nextKey
-              cp.fault cp.out cp.log).disps.length := hi
+              cp.fault cp.out cp.log cp.done).disps.length := hi
           simp [this, startDispatching]
         · have : ¬ (i = j ∧ i < (CP.mk cp.cfg cp.disps cp.pool rest cp.cuIn cp.cuRoom cp.drvRoom cp.nextReq
-              cp.nextKey cp.fault cp.out cp.log).disps.length) := fun hc => hj hc.1.symm
+              cp.nextKey cp.fault cp.out cp.log cp.done).disps.length) := fun hc => hj hc.1.symm
           simp only [this, if_false, hj]; rfl
 
 theorem cpTick_GI (cp : CP) (p : List Nat) (hdc : DCI cp) (h : GI cp p) : GI (cpTick cp).1 p := by
